@@ -1,0 +1,180 @@
+//! Read-only observation hooks for external verification harnesses.
+//!
+//! Everything in this module is compiled only with the cargo feature `verif`. Nothing here changes
+//! the behaviour of the crate: the functions copy internal data into plain data structures or
+//! call the very same functions the scanner itself uses.
+
+use std::cell::{Cell, RefCell};
+
+use crate::internal::compiled_dfa::CompiledDfa;
+use crate::{Scanner, ScannerMode};
+
+/// A plain-data copy of one compiled automaton.
+#[derive(Debug, Clone, PartialEq, Eq, Hash, Default)]
+pub struct DfaDump {
+    /// The pattern strings stored in the automaton (debugging data of the crate).
+    pub patterns: Vec<String>,
+    /// The token types in priority order.
+    pub terminal_ids: Vec<u32>,
+    /// Per state the list of `(character class id, target state)` transitions.
+    pub states: Vec<Vec<(u32, u32)>>,
+    /// Per state the accepting flag and the token type.
+    pub end_states: Vec<(bool, u32)>,
+    /// The lookaheads as `(token type, is_positive, automaton)`, sorted by token type.
+    pub lookaheads: Vec<(u32, bool, DfaDump)>,
+}
+
+/// A plain-data copy of one compiled scanner mode.
+#[derive(Debug, Clone, PartialEq, Eq, Hash, Default)]
+pub struct ModeDump {
+    /// The name of the mode.
+    pub name: String,
+    /// The compiled automaton of the mode.
+    pub dfa: DfaDump,
+    /// The transitions `(token type, target mode)` of the mode.
+    pub transitions: Vec<(u32, usize)>,
+}
+
+/// A plain-data copy of a compiled scanner.
+#[derive(Debug, Clone, PartialEq, Eq, Hash, Default)]
+pub struct ScannerDump {
+    /// The compiled modes.
+    pub modes: Vec<ModeDump>,
+    /// The text of the registered character classes; the index is the class id.
+    pub classes: Vec<String>,
+}
+
+/// The mutable state of a `FindMatches` iterator.
+#[derive(Debug, Clone, PartialEq, Eq, Hash, Default)]
+pub struct IterState {
+    /// The base offset of the character iterator.
+    pub offset: usize,
+    /// The relative index of the last consumed character.
+    pub last_position: usize,
+    /// The last consumed character.
+    pub last_char: char,
+    /// The known line start offsets.
+    pub line_offsets: Vec<usize>,
+    /// The number of bytes the character iterator has not consumed yet.
+    pub remaining: usize,
+    /// The current scanner mode.
+    pub current_mode: usize,
+    /// The simulation scratch buffers `(current_states, next_states)` of every mode.
+    pub scratch: Vec<(Vec<u32>, Vec<u32>)>,
+}
+
+pub(crate) fn dump_dfa(dfa: &CompiledDfa) -> DfaDump {
+    let mut lookaheads: Vec<(u32, bool, DfaDump)> = dfa
+        .lookaheads
+        .iter()
+        .map(|(t, la)| (t.id(), la.is_positive, dump_dfa(&la.nfa)))
+        .collect();
+    lookaheads.sort_by_key(|l| l.0);
+    DfaDump {
+        patterns: dfa.patterns.clone(),
+        terminal_ids: dfa.terminal_ids.iter().map(|t| t.id()).collect(),
+        states: dfa
+            .states
+            .iter()
+            .map(|s| {
+                s.transitions
+                    .iter()
+                    .map(|(cc, next)| (cc.id(), next.id()))
+                    .collect()
+            })
+            .collect(),
+        end_states: dfa.end_states.iter().map(|(a, t)| (*a, t.id())).collect(),
+        lookaheads,
+    }
+}
+
+pub(crate) fn dfa_scratch(dfa: &CompiledDfa) -> (Vec<u32>, Vec<u32>) {
+    (
+        dfa.current_states.iter().map(|s| s.id()).collect(),
+        dfa.next_states.iter().map(|s| s.id()).collect(),
+    )
+}
+
+impl Scanner {
+    /// Returns a plain-data copy of the compiled automata of this scanner.
+    pub fn verif_dump(&self) -> ScannerDump {
+        ScannerDump {
+            modes: self
+                .inner
+                .scanner_modes
+                .iter()
+                .map(|m| ModeDump {
+                    name: m.name.clone(),
+                    dfa: dump_dfa(&m.dfa),
+                    transitions: m
+                        .transitions
+                        .iter()
+                        .map(|(t, m)| (t.id(), m.as_usize()))
+                        .collect(),
+                })
+                .collect(),
+            classes: self
+                .inner
+                .character_classes
+                .character_classes()
+                .iter()
+                .map(|cc| cc.ast().to_string())
+                .collect(),
+        }
+    }
+
+    /// Evaluates the predicate the scanner uses for the character class `class` on `c`.
+    /// Returns `None` if no class with this id is registered.
+    pub fn verif_class_matches(&self, class: u32, c: char) -> Option<bool> {
+        if (class as usize) < self.inner.character_classes.len() {
+            Some((self.inner.match_char_class)(class.into(), c))
+        } else {
+            None
+        }
+    }
+}
+
+thread_local! {
+    static RECORDING: Cell<bool> = const { Cell::new(false) };
+    static INSIDE: Cell<bool> = const { Cell::new(false) };
+    static LOG: RefCell<Vec<(DfaDump, DfaDump)>> = const { RefCell::new(Vec::new()) };
+}
+
+/// Switches the recording of minimizer calls of the current thread on or off and clears the log.
+pub fn minimizer_recording(on: bool) {
+    RECORDING.with(|r| r.set(on));
+    INSIDE.with(|r| r.set(false));
+    LOG.with(|l| l.borrow_mut().clear());
+}
+
+/// Takes the `(input, output)` pairs of the minimizer calls recorded on the current thread.
+pub fn minimizer_take_log() -> Vec<(DfaDump, DfaDump)> {
+    LOG.with(|l| std::mem::take(&mut *l.borrow_mut()))
+}
+
+pub(crate) fn recorder_enter() -> bool {
+    if RECORDING.with(|r| r.get()) && !INSIDE.with(|r| r.get()) {
+        INSIDE.with(|r| r.set(true));
+        true
+    } else {
+        false
+    }
+}
+
+pub(crate) fn recorder_push(input: DfaDump, output: DfaDump) {
+    INSIDE.with(|r| r.set(false));
+    LOG.with(|l| l.borrow_mut().push((input, output)));
+}
+
+/// Removes all entries from the process-wide scanner cache.
+pub fn cache_clear() {
+    crate::internal::SCANNER_CACHE
+        .write()
+        .unwrap()
+        .verif_clear();
+}
+
+/// Returns the keys of the process-wide scanner cache.
+pub fn cache_keys() -> Vec<Vec<ScannerMode>> {
+    crate::internal::SCANNER_CACHE.read().unwrap().verif_keys()
+}
